@@ -41,18 +41,18 @@ Definition ss_protect (s : ss_state) : option Z * option Z * ss_state :=
    handed to the save callback; the configured start value before the first call) *)
 Record ss_sys := { ss_cur : ss_state; ss_saved : Z }.
 
-(* Protect a message, or crash and restart from storage (possibly with another ssn_freq) *)
-Inductive ss_op := Protect | Crash (freq : Z).
+(* protect a message, or crash and restart from storage (possibly with another ssn_freq) *)
+Inductive ss_op := SsProtect | SsCrash (freq : Z).
 
 Definition ss_boot (freq start : Z) : ss_sys := Build_ss_sys (ss_init freq start) start.
 
 (* -> (PIV put on the wire, value saved, system afterwards) *)
 Definition ss_step (y : ss_sys) (o : ss_op) : option Z * option Z * ss_sys :=
   match o with
-  | Protect =>
+  | SsProtect =>
     let '(piv, sv, s1) := ss_protect (ss_cur y) in
     (piv, sv, Build_ss_sys s1 (match sv with Some n => n | None => ss_saved y end))
-  | Crash f => (None, None, ss_boot f (ss_saved y))
+  | SsCrash f => (None, None, ss_boot f (ss_saved y))
   end.
 
 (* all Partial IVs put on the wire over a run, in order *)
